@@ -5,11 +5,12 @@ graph, the repeat check and real threads.  Model side: Model/Store.v (ownership 
 Coq on the same resolved histories (Corr/C07.v)."""
 import json
 import random
+import time
 
 import re
 from pathlib import Path
 
-from ..common import (REPO, Report, cbool, clist, cstr, decide, load_findings, run_case_shards, run_impl,
+from ..common import (ROOT, REPO, Report, cbool, clist, cstr, decide, load_findings, run_case_shards, run_impl,
                       standard_proof_part, write_replay, case_hash)
 
 PROP = "C07"
@@ -430,7 +431,7 @@ def history_case(job, res, cfg):
             last = j == len(mops) - 1
             steps.append("{| so_op := %s; so_observed := %s; so_changed := %s; so_sharing := %s |}" % (
                 mop, cbool(last), clist(c_owner(n) for n in changed) if last else "[]",
-                clist("(%s, %s)" % (c_owner(a), c_owner(b)) for a, b, _ in sharing) if last else "[]"))
+                clist("(%s, %s)" % (c_owner(a), c_owner(b)) for a, b, _ in sharing if not (a[0] == "O" and b[0] == "O")) if last else "[]"))
     repeat_ok = not res["repeat_mismatch"] and not res["repeat_changed"] and not res["module_leak"]
     return "{| c_cfg := %s; c_steps := %s; c_repeat_ok := %s; c_thread := None |}" % (
         c_cfg(cfg), clist(steps), cbool(repeat_ok))
@@ -574,7 +575,7 @@ def gen_sched_job(rng, sid, tier, n_threads=None):
         threads.append(ops)
     return {"op": "c07.sched", "id": sid, "doms": [main.text()], "probs": [p[0] for p in probs], "ma": [],
             "threads": threads, "random": 8 if tier == "quick" else 40, "seed": rng.randrange(10 ** 6),
-            "max_points": 150 if tier == "quick" else (400 if n == 2 else 200),
+            "max_points": 150 if tier == "quick" else (300 if n == 2 else 150),
             "_shape": {"doms": [main], "probs": probs}}
 
 
@@ -670,7 +671,7 @@ def fixture_jobs(rng, tier, seed=0):
                 calls.append({"ai": names.index(toks[0]), "args": toks[1:], "call": "(%s)" % " ".join(toks)})
         if not calls:
             continue
-        k = min(len(calls), 5 if tier == "quick" else 30)
+        k = min(len(calls), 5 if tier == "quick" else 14)
         start = 0 if tier == "quick" or len(calls) <= k else rng.randrange(0, 2)
         plan = calls[:k]
         ops = [{"k": "parse_domain", "src": 0}, {"k": "parse_problem", "src": 0, "dom": 0},
@@ -738,6 +739,20 @@ def run(args):
     findings = {f["id"]: f for f in load_findings(PROP)}
     # a repair that is recorded as fixed is part of the model's configuration; an open finding is reproduced by it
     cfg = {d: findings.get(d, {}).get("status") != "open" for d in DEFECTS}
+    def oracle_bad(r):
+        return (("steps" in r and dirty(r))
+                or ("n_runs" in r and (r["n_diffs"] or r["n_shared_writes"] or r["domain_changed_runs"] or r["module_leak"]))
+                or ("n_foreign" in r and (r["n_diffs"] or r["n_foreign"] or r["domain_changed_rounds"]))
+                or "raised" in r)
+
+    def only_d17(r):
+        """the oracle's complaint is exactly the open finding D17: value sharing, and only in a history with a refused step"""
+        open_ids = [d for d in DEFECTS if not cfg[d]]
+        return (open_ids == ["D17"] and "steps" in r and not any(s.get("changed") for s in r["steps"])
+                and not r["repeat_mismatch"] and not r["repeat_changed"] and not r["module_leak"]
+                and any(s["op"]["k"] in ("triplet", "plan") and (s["res"].get("refused") is True or (isinstance(s["res"].get("refused"), list) and any(s["res"]["refused"])))
+                        for s in r["steps"] if not s.get("skipped")))
+
     if args.replay:
         data = json.load(open(args.replay))
         jobs = [data["input"]["job"]]
@@ -745,41 +760,51 @@ def run(args):
             j["_shape"] = None
         # a replay re-executes the history on the current tree and applies the oracle directly
         res = run_impl([public(j) for j in jobs], nproc=1)
-        bad = [r for r in res if ("steps" in r and dirty(r))
-               or ("n_runs" in r and (r["n_diffs"] or r["n_shared_writes"] or r["domain_changed_runs"] or r["module_leak"]))
-               or ("n_foreign" in r and (r["n_diffs"] or r["n_foreign"] or r["domain_changed_rounds"]))
-               or "raised" in r]
+        bad = [r for r in res if oracle_bad(r)]
         rep.coverage.update({"evaluations": len(jobs), "distinct_nontrivial": len(jobs), "samples": [public(jobs[0])],
-                             "rule": "replay of one recorded history; oracle only (digests, sharing, repeats)",
+                             "rule": "replay of one recorded history; oracle only (digests, sharing, repeats, schedules)",
                              "replay_result": res})
-        open_ids = [d for d in DEFECTS if not cfg[d]]
         for r in bad:
-            only_known = open_ids == ["D17"] and "steps" in r and not any(s.get("changed") for s in r["steps"]) \
-                and not r["repeat_mismatch"] and not r["repeat_changed"] and not r["module_leak"] \
-                and any(s["op"]["k"] == "triplet" and s["res"].get("refused") for s in r["steps"] if not s.get("skipped"))
-            if only_known:
+            if only_d17(r):
                 rep.known("D17: %s" % findings["D17"].get("what", ""))
             else:
                 rep.violation(write_replay(PROP, "replay_again", {"kind": "input", "input": {"job": public(jobs[0])}, "result": r}), True)
         return rep.finish()
 
-    n_hist = 200 if args.tier == "quick" else 2400
+    # the corpus: minimised histories / schedules that exposed seeded defects (work of the mutation self-test); oracle only
+    corpus_files = sorted((ROOT / "corpus" / PROP).glob("*.json"))
+    cjobs = [json.load(open(f))["job"] for f in corpus_files]
+    cres = run_impl(cjobs, nproc=min(8, max(1, len(cjobs)))) if cjobs else []
+    for f, j, r in zip(corpus_files, cjobs, cres):
+        if oracle_bad(r) and not only_d17(r):
+            rep.violation(write_replay(PROP, "corpus_%s" % f.stem, {"kind": "input", "why": "corpus history fails the oracle", "input": {"job": j}, "result": r}), True)
+    rep.coverage["corpus"] = {"files": len(corpus_files), "failing": sum(1 for r in cres if oracle_bad(r) and not only_d17(r)),
+                              "known_d17_only": sum(1 for r in cres if oracle_bad(r) and only_d17(r))}
+
+    n_hist = 200 if args.tier == "quick" else 1800
     n_thr = 10 if args.tier == "quick" else 60
     jobs = witness_jobs() + fixture_jobs(rng, args.tier, args.seed)
     for i in range(n_hist):
         jobs.append(gen_history(rng, i, args.tier))
     hashseeds = [args.seed % 1000] if args.tier == "quick" else [args.seed % 1000, 1 + args.seed % 1000, 2 + args.seed % 1000]
     results = [None] * len(jobs)
+    timing = {}
+    t0 = time.time()
     for k, hs in enumerate(hashseeds):
         idx = [i for i in range(len(jobs)) if i % len(hashseeds) == k or jobs[i].get("witness") or jobs[i].get("fixture")]
         out = run_impl([public(jobs[i]) for i in idx], hashseed=hs)
         for i, r in zip(idx, out):
             results[i] = r
+    timing["impl_histories_s"] = round(time.time() - t0, 1)
+    t0 = time.time()
     tjobs = [gen_thread_job(rng, i, args.tier) for i in range(n_thr)]
     tres = run_impl(tjobs, hashseed=hashseeds[0], nproc=min(8, len(tjobs)))
-    n_sched = 4 if args.tier == "quick" else 16
+    timing["impl_real_threads_s"] = round(time.time() - t0, 1)
+    t0 = time.time()
+    n_sched = 4 if args.tier == "quick" else 14
     sjobs = [gen_sched_job(rng, i, args.tier) for i in range(n_sched)]
     sres = run_impl([public(j) for j in sjobs], hashseed=hashseeds[0], nproc=min(16, len(sjobs)))
+    timing["impl_scheduler_s"] = round(time.time() - t0, 1)
 
     cases, kinds, nsteps, raised, refused = [], {}, {}, 0, 0
     for job, res in zip(jobs, results):
@@ -823,8 +848,10 @@ def run(args):
                       "input": {"job": public(job), "observed": {k: v for k, v in res.items() if k not in ("ref", "foot", "sample")},
                                 "footprints": res["foot"]},
                       "nontrivial": res["switches"] > 0, "witness_of": None, "klass": None})
+    t0 = time.time()
     verdicts, info = run_case_shards(PROP, "Corr.C07", [c["lit"] for c in cases], shard_size=40, max_bytes=100_000, run_fn="Verif.Corr.C07.run",
                                      header_extra="From Verif Require Import Model.Store.\n")
+    timing["coq_cases_s"] = round(time.time() - t0, 1)
     # shrink failing histories (oracle-dirty outside the known class) before they are written as replays
     n_shrunk = 0
     for i, (c, ch) in enumerate(zip(cases, verdicts)):
@@ -855,6 +882,7 @@ def run(args):
                                  "sched_one_preemption_space_complete": sum(1 for r in sres if r.get("one_preemption_exhaustive")),
                                  "sched_shared_writes": sum(r.get("n_shared_writes", 0) for r in sres),
                                  "python_hash_seeds": hashseeds}
+    cov["timing"] = timing
     cov["exhaustive"] = False
     cov["rule"] = ("histories of 3-12 API calls (parse domain/problem, Domain(), combine agent domains, Domain.shallow_copy, Operator, ground, "
                    "is_applicable, apply x 4 flag combinations, re-apply to earlier/later states, State.copy, State ==, serialize, str of "
